@@ -406,6 +406,10 @@ def run_actions_case (frames, fname, mode, labels):
         k = "error-reply:%s" % r["code"]
       else:
         k = c
+      # special frame families get their own keys, so that a listed finding about them (first fragments, padded
+      # frames) cannot explain a violation on ordinary frames
+      fam = "first-fragment" if "frag-first" in fname else ("padded" if fname.endswith("-pad") else "")
+      if fam: k += ":" + fam
       bad.append(("%s:%s" % (PID, k), "frame %s, [%s] as %s: %s" % (fname, ",".join(labels), mode, r["what"])))
   summary = (tuple((p, digest(f)) for p, f in obs.out),
              tuple((p["reason"], p["in_port"], p["total_len"], digest(p["data"])) for p in obs.pins))
@@ -773,6 +777,11 @@ def run (cfg):
   for r in pmap(_work, items, cfg.workers, seed=cfg.seed):
     rep.merge(r)
   return rep
+
+
+def explains (known_key, key):
+  import fnmatch
+  return known_key == key or fnmatch.fnmatchcase(key, known_key)
 
 
 def replay (cfg, data):
